@@ -18,7 +18,7 @@ RawArgs == UNION {[1..n -> [flag : {"m", "l"}, model : {"A", "B"}, kind : (IF Cl
 ArgsSets == {x \in RawArgs :
                \A i \in DOMAIN x :
                   /\ (x[i].share => (i > 1 /\ x[i].kind = "lookup" /\ x[1].kind = "lookup" /\ ~x[i].alias))
-                  /\ (x[i].alias => (i > 1 /\ x[i].kind = x[1].kind /\ x[1].kind \in {"list", "object", "lookup"}))}
+                  /\ (x[i].alias => (i > 1 /\ x[i].kind = x[1].kind /\ x[1].kind \in {"list", "object", "lookup", "glob"}))}
 \* at most one faulty thing per plan
 FaultCount(as) == Cardinality({i \in DOMAIN as : as[i].kind \notin OkKinds})
 Plans == {[args |-> [i \in DOMAIN as |-> [flag |-> as[i].flag, model |-> as[i].model, kind |-> as[i].kind, share |-> as[i].share,
